@@ -73,10 +73,19 @@ func c12ApplyGates(c *Ctx, r *R) {
 			commits = append(commits, k)
 		}
 	}
+	// the gate is the load of the *staged* state; Apply may load other states too
+	// (the applied policy, to chain the staged root to it — C12.writer-agrees-with-verifier)
+	var stagedLoads []Call
+	for _, k := range eng.CallsTo(fn, false, "internal/policy.LoadCurrentState") {
+		if s, ok := eng.ConstString(k.Arg(2)); ok && s != refStaging {
+			continue
+		}
+		stagedLoads = append(stagedLoads, k)
+	}
 	gates := []gate{
 		find("ReconcileStaging", eng.CallsTo(fn, false, "internal/policy.ReconcileStaging")),
 		find("KnowsCommit", knows),
-		find("LoadCurrentState", eng.CallsTo(fn, false, "internal/policy.LoadCurrentState")),
+		find("LoadCurrentState", stagedLoads),
 		find("State.Verify", eng.CallsTo(fn, false, fnSV)),
 		find("SetReference", setRefs),
 		find("ReferenceEntry.Commit", commits),
